@@ -1,6 +1,6 @@
 """C13 - temperature schedules are followed faithfully.
 
-proof:          coq/C13/Properties.v (20 theorems about the real instance of coq/C13/Model.v: np.interp
+proof:          coq/C13/Properties.v (21 theorems about the real instance of coq/C13/Model.v: np.interp
                 hits break points / is linear between / clamps / never overshoots, the schedule object
                 with seconds in and hours in the table, recorded temperature = schedule(recorded time) at
                 every step, constructor object = setter (flag, incubation model, any observable of a
@@ -24,7 +24,13 @@ correspondence: (a) TemperatureParameters of both packages, built through the co
                     functions / constants through constructor and setter, several step-size limits) are
                     observed the same way; their operation sequences and recorded time / temperature
                     arrays are checked against the model in Coq;
-                (d) SinglePhaseModel runs with a logging cache: temperature used at every flux
+                    the same for runs made of SEVERAL solve() calls with the specification changed in
+                    between (constant -> constant, table/function -> constant, constant -> table/function,
+                    ...; through model.setTemperature, the kind-specific setter of the parameter object,
+                    setTemperatureParameters, or a new parameter object), each treatment run twice with
+                    different but equivalent ways of changing it: every step must carry the schedule IN FORCE
+                    during its own solve call (model: run_segs / C13_recorded_T_segments, recs_case);
+                (d) SinglePhaseModel runs (also multi-solve, specification changed in between) with a logging cache: temperature used at every flux
                     evaluation; both diffusion models' _getFluxes are checked (ast) to obtain T from
                     self.temperatureParameters(self.z, t) only.
 search:         oracles written from the property text, independent of the Coq model: exact piecewise
@@ -745,7 +751,7 @@ def gen_run(rng, quick, force=None):
     cfg = {'type': 'run', 'shape': shape, 'spec': spec, 'tf': tf, 'constraints': cons,
            'phases': ['B1', 'B2'][:int(rng.choice([1, 2], p=[0.7, 0.3]))],
            'solver': str(force.get('solver', rng.choice(['euler', 'euler', 'euler', 'rk4']))),
-           'maxsteps': int(force.get('maxsteps', 260 if quick else 1500)),
+           'maxsteps': int(force.get('maxsteps', 220 if quick else 1500)),
            'bins': [1e-10, 1e-8, 30, 20, 40] if quick else [1e-10, 1e-8, 75, 50, 100],
            'beta2': False}
     cfg.update({k: v for k, v in force.items() if k in ('spec', 'constraints', 'phases')})
@@ -754,12 +760,63 @@ def gen_run(rng, quick, force=None):
     return cfg
 
 
-def run_model(cfg, route):
-    """one observed run; returns dict with the recorded arrays, the rig and the oracle hits"""
+LATER_HOWS = ('model', 'param', 'generic', 'object')
+
+
+def apply_spec(m, pkg, spec, how):
+    """change the temperature specification of an existing model between two solve() calls:
+    'model'   the model's setter(s),            'param'   the kind-specific setter of the parameter object,
+    'generic' setTemperatureParameters(*args)   'object'  a new parameter object (as the constructor takes it)"""
+    args = spec_args(spec, pkg)
+    k = spec['kind']
+    if pkg == 'precip':
+        from kawin.precipitation import TemperatureParameters as TP
+        tp = m.temperatureParameters
+        with quiet():
+            if how == 'model':
+                m.setTemperature(*args)
+            elif how == 'param':
+                {'const': tp.setIsothermalTemperature, 'table': tp.setTemperatureArray, 'func': tp.setTemperatureFunction}[k](*args)
+            elif how == 'generic':
+                tp.setTemperatureParameters(*args)
+            else:
+                m.temperatureParameters = TP(*args)
+    else:
+        from kawin.diffusion.DiffusionParameters import TemperatureParameters as DTP
+        tp = m.temperatureParameters
+        if how == 'model':
+            {'const': m.setTemperature, 'table': m.setTemperatureArray, 'func': m.setTemperatureFunction}[k](*args)
+        elif how in ('param', 'generic'):
+            {'const': tp.setIsothermalTemperature, 'table': tp.setTemperatureArray, 'func': tp.setTemperatureFunction}[k](*args)
+        else:
+            m.temperatureParameters = DTP(*args)
+
+
+def stages_of(cfg):
+    return cfg['stages'] if 'stages' in cfg else [{'spec': cfg['spec'], 'dt': cfg['tf']}]
+
+
+def coq_tp_stages(stages, hows):
+    """Coq terms (tparams Qops) of the parameter object in force in each stage"""
+    out = []
+    for k, (st, how) in enumerate(zip(stages, hows)):
+        if k == 0:
+            out.append(coq_tp(st['spec'], 'ctor' if how == 'ctor' else 'setter'))
+        elif how == 'object':
+            out.append('(ctor Qops %s)' % coq_args(st['spec']))
+        else:
+            out.append('(setTemperatureParameters Qops %s %s)' % (out[-1], coq_args(st['spec'])))
+    return out
+
+
+def run_model(cfg, route, hows=None):
+    """one observed run = one solve() call per stage, the temperature specification changed in between
+    (a plain run has one stage); returns dict with the recorded arrays, the rig and the oracle hits"""
     from kawin.solver.Iterators import ExplicitEulerIterator, RK4Iterator
-    rig = Rig(cfg, route)
+    stages = stages_of(cfg)
+    hows = [route] + list(hows or ['model'] * (len(stages) - 1))
+    rig = Rig(dict(cfg, spec=stages[0]['spec']), route)
     m, st = rig.m, rig.st
-    spec = cfg['spec']
     maxdT = rig.maxdT
     hits = []
     count = [0]
@@ -790,32 +847,90 @@ def run_model(cfg, route):
                 raise StopRun()
     m.addCouplingModel(Obs())
     err = None
-    try:
-        with quiet():
-            m.solve(cfg['tf'], solverType=ExplicitEulerIterator if cfg['solver'] == 'euler' else RK4Iterator, verbose=False)
-    except StopRun:
-        pass
-    except Exception as e:
-        err = type(e).__name__ + ': ' + str(e)
-    n = m.pData.n
-    out = {'rig': rig, 'err': err, 'n': n, 'flag': getattr(m.temperatureParameters, '_isIsothermal', None),
-           'data': {k: np.array(getattr(m.pData, k)[:n + 1]).copy() for k in m.pData.ATTRIBUTES}}
-    # the recorded temperature is the schedule at the recorded time
-    tt, TT = out['data']['time'], out['data']['temperature']
-    for i in range(n + 1):
-        lo, hi = ref_sched(spec, float(tt[i]))
-        if not (lo <= frac(float(TT[i])) <= hi):
-            hits.append(('recorded_T_is_schedule', spec['kind'],
-                         'step %d: recorded temperature %r K at time %r s, the schedule gives %r K' % (i, float(TT[i]), float(tt[i]), float(lo))))
+    bounds, flags = [], []
+    for k, stg in enumerate(stages):
+        if k > 0:
+            try:
+                apply_spec(m, 'precip', stg['spec'], hows[k])
+            except Exception as e:
+                err = type(e).__name__ + ': ' + str(e)
+                break
+        count[0] = 0
+        try:
+            with quiet():
+                m.solve(stg['dt'], solverType=ExplicitEulerIterator if cfg['solver'] == 'euler' else RK4Iterator, verbose=False)
+        except StopRun:
+            pass
+        except Exception as e:
+            err = type(e).__name__ + ': ' + str(e)
             break
-    want = spec['kind'] == 'const'
-    if out['flag'] is not want:
-        hits.append(('isothermal_flag', 'flag', '%s schedule through the %s route: incubation is treated as %s'
-                     % (spec['kind'], 'constructor' if route == 'ctor' else 'setter', 'isothermal' if out['flag'] else 'non-isothermal')))
+        bounds.append(int(m.pData.n))
+        flags.append(getattr(m.temperatureParameters, '_isIsothermal', None))
+    n = m.pData.n
+    out = {'rig': rig, 'err': err, 'n': n, 'flag': flags[-1] if flags else None, 'flags': flags, 'bounds': bounds, 'hows': hows,
+           'data': {k: np.array(getattr(m.pData, k)[:n + 1]).copy() for k in m.pData.ATTRIBUTES}}
+    # the recorded temperature is the schedule IN FORCE when the step was made, at the recorded time
+    # (step 0: setup, first specification; steps bounds[k-1]+1 .. bounds[k]: specification of stage k)
+    tt, TT = out['data']['time'], out['data']['temperature']
+    lo_i = 0
+    for k, nb in enumerate(bounds):
+        spec = stages[k]['spec']
+        for i in range(lo_i, nb + 1):
+            lo, hi = ref_sched(spec, float(tt[i]))
+            if not (lo <= frac(float(TT[i])) <= hi):
+                where = '' if len(stages) == 1 else ' (solve call %d of %d, %s specification%s)' % (
+                    k + 1, len(stages), spec['kind'], '' if k == 0 else ' set through %s after a %s one' % (
+                        {'model': 'model.setTemperature', 'param': 'the setter of the parameter object', 'generic': 'temperatureParameters.setTemperatureParameters',
+                         'object': 'a new TemperatureParameters object'}[hows[k]], stages[k - 1]['spec']['kind']))
+                hits.append(('recorded_T_is_schedule', spec['kind'] if len(stages) == 1 else '%s->%s' % (stages[k - 1]['spec']['kind'] if k else 'setup', spec['kind']),
+                             'step %d%s: recorded temperature %r K at time %r s, the schedule in force gives %r K' % (i, where, float(TT[i]), float(tt[i]), float(lo))))
+                break
+        else:
+            lo_i = nb + 1
+            continue
+        break
+    for k, fl in enumerate(flags):
+        want = stages[k]['spec']['kind'] == 'const'
+        if fl is not want:
+            hits.append(('isothermal_flag', 'flag', '%s schedule through the %s route%s: incubation is treated as %s'
+                         % (stages[k]['spec']['kind'], {'ctor': 'constructor', 'setter': 'setter'}.get(hows[k], hows[k]),
+                            '' if len(stages) == 1 else ' (solve call %d)' % (k + 1), 'isothermal' if fl else 'non-isothermal')))
+            break
     out['hits'] = [(c, SITE_LK if c == 'table_within_maxTempChange' else SITE_RUN if c == 'recorded_T_is_schedule' else SITE_TP, cls, msg)
                    for (c, cls, msg) in hits]
     out['hits'] += [(c, SITE_LK, cls, msg) for (c, cls, msg, k) in rig.hits[:1] if not any(h[0] == c and h[2] == cls for h in out['hits'])]
     return out
+
+
+def gen_stages(rng, quick, idx):
+    """a run made of 2-3 solve() calls; the specification changes in between"""
+    seqs = [('const', 'const'), ('table', 'const'), ('func', 'const'), ('const', 'table'), ('const', 'func', 'const'),
+            ('table', 'table', 'const'), ('const', 'const', 'table'), ('func', 'table')]
+    kinds = seqs[idx % len(seqs)]
+    T = float(rng.uniform(685, 715))
+    t = 0.0
+    stages = []
+    for k, kind in enumerate(kinds):
+        dt = float(rng.choice([4.0, 8.0, 16.0])) if k == 0 else float(rng.choice([1.0, 3.0, 6.0]))
+        T += float(rng.choice([-1, 1])) * float(rng.uniform(3, 12)) if k else 0.0      # the new specification starts elsewhere
+        if kind == 'const':
+            spec = {'kind': 'const', 'T': T}
+        elif kind == 'table':
+            d = float(rng.uniform(-8, 8))
+            spec = {'kind': 'table', 'hours': [t / 3600.0, (t + dt / 2) / 3600.0, (t + dt) / 3600.0], 'kelvin': [T, T + d, T + d / 3]}
+            T = T + d / 3
+        else:
+            b = float(rng.uniform(-6, 6)) / dt
+            spec = {'kind': 'func', 'a': T - b * t, 'b': b, 'c': 0.0}
+            T = T + b * dt
+        stages.append({'spec': spec, 'dt': dt})
+        t += dt
+    la = [LATER_HOWS[(idx + k) % 4] for k in range(len(kinds) - 1)]
+    lb = [LATER_HOWS[(idx + k + 1 + (k % 2)) % 4] for k in range(len(kinds) - 1)]
+    return {'type': 'stages', 'shape': '->'.join(kinds), 'stages': stages, 'hows_a': la, 'hows_b': lb,
+            'constraints': {'maxTempChange': float(rng.choice([1.0, 0.5, 2.0]))},
+            'phases': ['B1', 'B2'][:int(rng.choice([1, 2], p=[0.75, 0.25]))], 'solver': 'rk4' if idx % 5 == 4 else 'euler',
+            'maxsteps': (60 if idx % 5 == 4 else 150) if quick else 600, 'bins': [1e-10, 1e-8, 30, 20, 40], 'beta2': False}
 
 
 def pair_oracle(cfg, a, b):
@@ -825,9 +940,11 @@ def pair_oracle(cfg, a, b):
         if a['err'] != b['err']:
             v.append(('ctor_eq_setter', SITE_TP, 'exception', 'constructor run: %s; setter run: %s' % (a['err'], b['err'])))
         return v
-    if a['flag'] != b['flag']:
+    if 'spec' not in cfg:
+        cfg = dict(cfg, spec={'kind': cfg['shape'] + ' (specification changed between solve calls: %s vs %s)' % (a['hows'], b['hows'])})
+    if a['flag'] != b['flag'] or a.get('flags') != b.get('flags'):
         v.append(('ctor_eq_setter', SITE_TP, 'flag', '%s schedule: _isIsothermal is %r when given to the constructor and %r when given to setTemperature'
-                  % (cfg['spec']['kind'], a['flag'], b['flag'])))
+                  % (cfg['spec']['kind'], a.get('flags', a['flag']), b.get('flags', b['flag']))))
     if a['n'] != b['n']:
         v.append(('ctor_eq_setter', SITE_TP, 'run', '%s schedule: the constructor run has %d steps, the setter run %d' % (cfg['spec']['kind'], a['n'], b['n'])))
     else:
@@ -838,6 +955,19 @@ def pair_oracle(cfg, a, b):
                           % (cfg['spec']['kind'], k, i, np.ravel(a['data'][k][i])[0], np.ravel(b['data'][k][i])[0])))
                 break
     return v
+
+
+def recs_term(cfg, out):
+    """several solve calls: per segment the object in force and the (time, temperature) records"""
+    stages = stages_of(cfg)
+    tps = coq_tp_stages(stages, out['hows'])
+    tt = [float(x) for x in out['data']['time']]
+    TT = [float(x) for x in out['data']['temperature']]
+    segs, lo = [], 1
+    for k, nb in enumerate(out['bounds']):
+        segs.append('(%s, [%s])' % (tps[k], '; '.join('(%s, %s)' % (qlit(tt[i]), qlit(TT[i])) for i in range(lo, nb + 1))))
+        lo = nb + 1
+    return 'recs_case %s %s %s %s [%s]' % (RT, tps[0], qlit(tt[0]), qlit(TT[0]), ';\n '.join(segs))
 
 
 def rec_term(cfg, route, out):
@@ -884,10 +1014,12 @@ def gen_diff(rng):
     return {'type': 'diff', 'spec': spec, 'N': int(rng.integers(4, 12)), 'tf': 40.0}
 
 
-def run_diff(cfg, route):
+def run_diff(cfg, route, hows=None):
     from kawin.diffusion import SinglePhaseModel
     from kawin.diffusion.DiffusionParameters import TemperatureParameters as DTP
-    spec = cfg['spec']
+    stages = stages_of(cfg)
+    hows = [route] + list(hows or ['model'] * (len(stages) - 1))
+    spec = stages[0]['spec']
     args = spec_args(spec, 'diff')
     if route == 'ctor':
         m = SinglePhaseModel([0, 1e-4], cfg['N'], ['A', 'B'], ['P'], thermodynamics=StubDiff(), temperatureParameters=DTP(*args), record=False)
@@ -897,41 +1029,75 @@ def run_diff(cfg, route):
     m.setCompositionStep(0.1, 0.4, 0.5e-4, 'B')
     m.hashTable = LogTable()
     calls = []
+    stage = [0]
     orig = m._getFluxes
 
     def gf(t, x):
         i0 = len(m.hashTable.log)
         r = orig(t, x)
-        calls.append((float(t), list(m.hashTable.log[i0:])))
+        calls.append((float(t), list(m.hashTable.log[i0:]), stage[0]))
         return r
     m._getFluxes = gf
     err = None
-    try:
-        with quiet():
-            m.solve(cfg['tf'], verbose=False)
-    except Exception as e:
-        err = type(e).__name__ + ': ' + str(e)
-    return {'err': err, 'calls': calls, 'z': [float(x) for x in m.z], 'x': np.array(m.x, dtype=float).copy()}
+    for k, stg in enumerate(stages):
+        stage[0] = k
+        try:
+            if k > 0:
+                apply_spec(m, 'diff', stg['spec'], hows[k])
+            with quiet():
+                m.solve(stg['dt'], verbose=False)
+        except Exception as e:
+            err = type(e).__name__ + ': ' + str(e)
+            break
+    return {'err': err, 'calls': calls, 'z': [float(x) for x in m.z], 'x': np.array(m.x, dtype=float).copy(), 'hows': hows}
+
+
+def gen_dstages(rng, idx):
+    seqs = [('const', 'const'), ('table', 'const'), ('const', 'func'), ('func', 'const', 'table')]
+    kinds = seqs[idx % len(seqs)]
+    T, t, stages = float(rng.uniform(700, 900)), 0.0, []
+    for k, kind in enumerate(kinds):
+        dt = float(rng.choice([10.0, 20.0]))
+        T += float(rng.choice([-1, 1])) * float(rng.uniform(20, 80)) if k else 0.0
+        if kind == 'const':
+            spec = {'kind': 'const', 'T': T}
+        elif kind == 'table':
+            d = float(rng.uniform(-50, 50))
+            spec = {'kind': 'table', 'hours': [t / 3600.0, (t + dt) / 3600.0], 'kelvin': [T, T + d]}
+            T += d
+        else:
+            b = float(rng.uniform(-40, 40)) / dt
+            spec = {'kind': 'func', 'a': T - b * t, 'b': b, 'c': float(rng.uniform(-1e4, 1e4))}
+            T += b * dt
+        stages.append({'spec': spec, 'dt': dt})
+        t += dt
+    three = ('model', 'param', 'object')
+    return {'type': 'dstages', 'shape': '->'.join(kinds), 'stages': stages, 'N': int(rng.integers(4, 10)),
+            'hows_a': [three[(idx + k) % 3] for k in range(len(kinds) - 1)], 'hows_b': [three[(idx + k + 1) % 3] for k in range(len(kinds) - 1)]}
 
 
 def diff_oracle(cfg, a, b):
     v = []
-    spec = cfg['spec']
+    stages = stages_of(cfg)
     for name, r in (('constructor', a), ('setter', b)):
         if r['err']:
             v.append(('diffusion_schedule', SITE_DTP, 'exception', '%s run: %s' % (name, r['err'])))
             return v
-        for (t, Ts) in r['calls']:
+        for (t, Ts, k) in r['calls']:
+            spec = stages[k]['spec']
+            if len(stages) > 1:
+                name = '%s run, solve call %d of %d, %s specification%s,' % (name.split(' run')[0], k + 1, len(stages), spec['kind'], '' if k == 0 else ' set through ' + r['hows'][k])
             if len(Ts) != len(r['z']):
                 v.append(('diffusion_schedule', SITE_DTP, 'shape', '%s run: %d temperatures used for %d nodes at t=%r' % (name, len(Ts), len(r['z']), t)))
                 return v
             for j, T in enumerate(Ts):
                 lo, hi = ref_sched(spec, t, False, r['z'][j] if spec['kind'] == 'func' else None)
                 if not (lo <= frac(T) <= hi):
-                    v.append(('diffusion_schedule', SITE_DTP, spec['kind'], '%s run: node %d uses %r K at t=%r s, the schedule gives %r K' % (name, j, T, t, float(lo))))
+                    v.append(('diffusion_schedule', SITE_DTP, spec['kind'] if len(stages) == 1 else '%s->%s' % (stages[k - 1]['spec']['kind'] if k else 'setup', spec['kind']),
+                              '%s run: node %d uses %r K at t=%r s, the schedule in force gives %r K' % (name, j, T, t, float(lo))))
                     return v
     if not np.array_equal(a['x'], b['x']) or [c[0] for c in a['calls']] != [c[0] for c in b['calls']]:
-        v.append(('ctor_eq_setter', SITE_DTP, 'run', '%s schedule: constructor and setter diffusion runs end with different profiles' % spec['kind']))
+        v.append(('ctor_eq_setter', SITE_DTP, 'run', '%s schedule: constructor and setter diffusion runs end with different profiles' % (cfg['spec']['kind'] if 'spec' in cfg else cfg['shape'])))
     return v
 
 
@@ -976,9 +1142,23 @@ def check_input(case):
         hits += [h for h in b['hits'] if not any(x[0] == h[0] and x[2] == h[2] for x in hits)]
         hits += pair_oracle(case, a, b)
         return hits, {'a': a, 'b': b}
+    if t == 'stages':
+        # the same staged treatment twice: first specification through the constructor object / the setter, later
+        # ones through two different (equivalent) ways: every step must carry the schedule in force, the two runs
+        # must be identical
+        a = run_model(case, 'ctor', case['hows_a'])
+        b = run_model(case, 'setter', case['hows_b'])
+        hits = list(a['hits'])
+        hits += [h for h in b['hits'] if not any(x[0] == h[0] and x[2] == h[2] for x in hits)]
+        hits += pair_oracle(case, a, b)
+        return hits, {'a': a, 'b': b}
     if t == 'diff':
         a = run_diff(case, 'ctor')
         b = run_diff(case, 'setter')
+        return diff_oracle(case, a, b), {'a': a, 'b': b}
+    if t == 'dstages':
+        a = run_diff(case, 'ctor', case['hows_a'])
+        b = run_diff(case, 'setter', case['hows_b'])
         return diff_oracle(case, a, b), {'a': a, 'b': b}
     raise ValueError('unknown input type %r' % t)
 
@@ -1132,28 +1312,36 @@ def run(ctx):
         runs.append({'type': 'run', 'shape': 'alzr_ramp', 'backend': 'alzr', 'spec': {'kind': 'table', 'hours': [0.0, 0.5, 1.0], 'kelvin': [T0, T0 + d, T0 + d / 2]},
                      'tf': 3600.0, 'constraints': {'maxTempChange': [1.0, 2.0, 0.5, 1.0][i]}, 'phases': ['AL3ZR'], 'solver': 'euler',
                      'maxsteps': 250 if quick else 1500, 'beta2': False})
+    # several solve() calls with the specification changed in between (constant -> constant, schedule -> constant, ...)
+    runs += [gen_stages(rng, quick, i) for i in range(6 if quick else 32)]
     terms, meta = [], []
     for c in runs:
         hits, art = check_input(c)
         a, b = art['a'], art['b']
         ctx.count(c, a['rig'].worst > 0)
         ctx.cov['traces_validated_against_impl'] += 2
-        ctx.hist('type', 'run')
+        ctx.hist('type', c['type'])
         ctx.hist('run', c['shape'] + ':' + c['solver'] + ':%dph' % len(c['phases']))
         ctx.notes['run_steps'] = ctx.notes.get('run_steps', 0) + a['n'] + b['n']
         ctx.notes['run_rebuilds'] = ctx.notes.get('run_rebuilds', 0) + a['rig'].rebuilds + b['rig'].rebuilds
         report(ctx, c, hits)
         nhits += len(hits)
-        for route, o in (('ctor', a), ('setter', b)):
+        # the second run of a pair that is identical to the first one (records bit for bit, same operations and
+        # observations) would be the same computation in Coq again: ship it only when it differs
+        same = (not a['err'] and not b['err'] and a['n'] == b['n'] and a['flags'] == b['flags']
+                and all(np.array_equal(a['data'][k], b['data'][k], equal_nan=True) for k in a['data'])
+                and a['rig'].events == b['rig'].events)
+        ctx.notes['pairs_identical'] = ctx.notes.get('pairs_identical', 0) + int(same)
+        for route, o in (('ctor', a),) if same else (('ctor', a), ('setter', b)):
             if o['err']:
                 dis_all.append((c, '%s run raised %s' % (route, o['err'])))
                 continue
             terms.append(o['rig'].term(False, chk=False))
             meta.append((c, route, o, 'ops'))
-            terms.append(rec_term(c, route, o))
-            meta.append((c, route, o, 'rec'))
+            terms.append(rec_term(c, route, o) if c['type'] == 'run' else recs_term(c, o))
+            meta.append((c, route, o, 'rec' if c['type'] == 'run' else 'recs'))
         if len(ctx.cov['samples']) < 5:
-            ctx.sample({'run': {k: c[k] for k in ('shape', 'spec', 'solver', 'constraints', 'phases')}, 'steps': a['n'],
+            ctx.sample({'run': {k: c[k] for k in ('shape', 'spec', 'stages', 'hows_a', 'solver', 'constraints', 'phases') if k in c}, 'steps': a['n'],
                         'rebuilds': a['rig'].rebuilds, 'largest |T - T_table| seen (K)': a['rig'].worst})
     mark('runs_impl')
     mods = ctx.coq_eval('runs', HEADER, terms, shard=2)
@@ -1168,6 +1356,15 @@ def run(ctx):
                 op, ob = o['rig'].events[kk]
                 dis_all.append((c, '%s run, operation %d %r: implementation state (dTemp %r, _lookupTemp %r) differs from the repaired machine of coq/C13/Model.v%s'
                                 % (route, kk, op, ob['dTemp'], ob['lookup'], ' (and agrees with the unrepaired machine step_old throughout)' if old == 'Agree' else '')))
+        elif what == 'recs':
+            flags, samelen, bad = mo
+            if list(flags) != list(o['flags']):
+                dis_all.append((c, '%s run: _isIsothermal per solve call: implementation %r, model %r' % (route, o['flags'], flags)))
+            if not samelen:
+                dis_all.append((c, '%s run: model records other times / another number of steps' % route))
+            if bad is not None:
+                i = bad[1]
+                dis_all.append((c, '%s run: recorded temperature %r at step %d (t=%r) differs from the model of the schedule in force' % (route, float(o['data']['temperature'][i]), i, float(o['data']['time'][i]))))
         else:
             flag, samelen, bad = mo
             if flag != o['flag']:
@@ -1192,6 +1389,15 @@ def run(ctx):
         report(ctx, c, hits)
         nhits += len(hits)
 
+    for i in range(3 if quick else 16):
+        c = gen_dstages(rng, i)
+        hits, art = check_input(c)
+        ctx.count(c, True)
+        ctx.hist('type', 'dstages')
+        ctx.hist('run', 'diffusion:' + c['shape'])
+        ctx.notes['diffusion_flux_evaluations'] = ctx.notes.get('diffusion_flux_evaluations', 0) + len(art['a']['calls']) + len(art['b']['calls'])
+        report(ctx, c, hits)
+        nhits += len(hits)
     mark('diffusion')
     # ---- theorems that no longer check / model no longer followed --------------------------------
     for t in failed:
